@@ -233,6 +233,12 @@ func runC20(c *core.Ctx) {
 						c.Violate("independence", "C20/shared-memory/capacity-overlap/"+what, "right after Clone() of a packet built in memory, the clone's %s can reach memory of the original (%s)", what, spec)
 					} else if k2, a, b := c20diff(c, cl, spec); k2 != "" {
 						c.Violate("equal", "C20/clone-differs-at-clone-time/"+k2, "Clone() of a packet built in memory has %s=%s, the packet has %s (%s)", k2, a, b, spec)
+					} else if n := []int{130, 260, 1030, 4200}[t.Intn(4)]; t.Chance(1, 150) && c20burst(c, t, n) {
+						// the clone sits in a retransmission buffer while the process clones thousands of other packets
+						c.Probe("clone-retained-across-many-clones")
+						if k3, a, b := c20diff(c, cl, spec); k3 != "" {
+							c.Violate("independence", "C20/clone-changed/later-clones-of-other-packets/"+k3, "a retained clone has %s=%s after %d later Clone() calls on other packets, expected %s (%s)", k3, a, n, b, spec)
+						}
 					} else {
 						var ob, cb []byte
 						var e1, e2 error
@@ -547,5 +553,29 @@ func c20preRead(c *core.Ctx, t *core.Tape, p *rtp.Packet) {
 		}
 		_ = p.GetExtension(uint8(t.Intn(256)))
 		_ = p.MarshalSize()
+	})
+}
+
+// c20burst clones n other small packets (and keeps the results alive until it returns).
+func c20burst(c *core.Ctx, t *core.Tape, n int) bool {
+	others := make([]*rtp.Packet, 0, 4)
+	for i := 0; i < 4; i++ {
+		sp := genPacketSpec(t, 24)
+		if p, ok := sp.build(c); ok {
+			others = append(others, p)
+		}
+	}
+	if len(others) == 0 {
+		return false
+	}
+	keep := make([]*rtp.Packet, 0, n)
+	return !c.Guard("rtp.Packet.Clone(burst)", func() {
+		for i := 0; i < n; i++ {
+			q := others[i%len(others)].Clone()
+			if len(q.Payload) > 0 {
+				q.Payload[0] ^= byte(i)
+			}
+			keep = append(keep, q)
+		}
 	})
 }
